@@ -181,6 +181,18 @@ func (c *c09) RunCase(r *fw.Rec, cs fw.Case) {
 		}
 		deep = true
 		desc = "freeze"
+		switch rng.Intn(8) {
+		case 0:
+			// values that are already immutable at the top but not below it: module tables and look-alikes
+			init = "src = immutable({__module_name__: \"m\", a: " + c09Lit(rng, 1, false, true) + ", k: " + c09Lit(rng, 1, true, true) + "}); imm = freeze(src)"
+			desc = "freeze(module-like map)"
+		case 1:
+			init = "src = import(\"pmdata\"); imm = freeze(src)"
+			desc = "freeze(source module)"
+		case 2:
+			init = "src = import(\"hostdata\"); imm = freeze(src)"
+			desc = "freeze(host module)"
+		}
 	case 4:
 		init = "imm = import(\"pm\")"
 		desc = "module-export"
@@ -211,6 +223,13 @@ func (c *c09) RunCase(r *fw.Rec, cs fw.Case) {
 	_ = s.Add("step", -1)
 	mm := stdModules()
 	mm.AddSourceModule("pm", []byte(c09ModSrc))
+	mm.AddSourceModule("pmdata", []byte("export {data: [1, [2, 3], {k: 4}], cfg: {a: {a: 1}, k: \"v\"}, a: [5, 6], k: 7}\n"))
+	ti := func(i int64) tengo.Object { return &tengo.Int{Value: i} }
+	mm.AddBuiltinModule("hostdata", map[string]tengo.Object{
+		"data": &tengo.Array{Value: []tengo.Object{ti(1), &tengo.Array{Value: []tengo.Object{ti(2), ti(3)}}, &tengo.Map{Value: map[string]tengo.Object{"k": ti(4)}}}},
+		"cfg":  &tengo.Map{Value: map[string]tengo.Object{"a": &tengo.Map{Value: map[string]tengo.Object{"a": ti(1)}}, "k": &tengo.String{Value: "v"}}},
+		"a":    &tengo.Array{Value: []tengo.Object{ti(5), ti(6)}},
+		"k":    ti(7)})
 	s.SetImports(mm)
 	cp, err := s.Compile()
 	if err != nil {
